@@ -163,7 +163,8 @@ func (s *Session) process() {
 		s.stream.Close()
 
 		// 重置到初始状态
-		s.conn = nil
+		// 注意：不能把 s.conn 置为 nil，消费者的发送 routine 可能刚通过 closed 检查，
+		// 正要向 s.conn 写入；向已关闭的连接写入只会返回错误
 		s.status = statusInit
 		s.stream = defaultStream
 		s.consumer = defaultConsumer
